@@ -45,7 +45,10 @@ def gen_case(rng, thorough):
         elif r < 0.90:
             ops.append({"op": "event", "loc": loc, "event": {"go": rng.choice([1, "v"])}})
         elif r < 0.94:
-            ops.append({"op": "query", "loc": loc, "query": {"pattern": {"at": "?l", "k": "?k"}}})
+            q = {"pattern": {"at": "?l", "k": "?k"}}
+            # under `not` the ancestor walk is the same walk: what it reports (a loop, a missing parent) is reported, not turned into "no solution"
+            if rng.random() < 0.35: q = {"not": q} if rng.random() < 0.6 else {"and": [{"pattern": {"at": "?l"}}, {"not": {"pattern": {"k": "?k", "at": "nowhere"}}}]}
+            ops.append({"op": "query", "loc": loc, "query": q})
         elif r < 0.97:
             ops.append({"op": "listRules", "loc": loc, "inherited": True})
         else:
